@@ -160,6 +160,31 @@ def family_g():
     return out
 
 
+def family_h(mll):
+    """lines far longer in bytes than in columns (every character in its own colours, some in their own hyperlink):
+    byte lengths on a ladder from 0.5 kB to 40 kB, widths below and above the limit, and - since a cut made by bytes
+    lands somewhere inside a sequence - every padding 0..period-1 in front"""
+    units = [ESC + "[38;2;10;20;30m" + "x" + ESC + "[m",
+             ESC + "[38;2;10;20;30m" + ESC + "[48;2;40;50;60m" + ESC + "[1m" + ESC + "[3m" + "y" + ESC + "[m",
+             ESC + "]8;;http://h/abcdefghij" + ESC + "\\" + ESC + "[1;35m" + "z" + ESC + "[m" + ESC + "]8;;" + ESC + "\\"]
+    out = []
+    head = "diff --git a/f b/f\n--- a/f\n+++ b/f\n@@ -1,3 +1,3 @@\n"
+    for u in units:
+        for nbytes in (500, 1500, 3000, 6000, 14000, 40000):
+            n = nbytes // len(u) + 1
+            if n > mll and n - mll > 3 * mll + 50:
+                n = mll - len(u) if mll > 2 * len(u) else max(1, mll // 2)     # (dense: within the limit in columns)
+                if n * len(u) < 400:
+                    continue
+            for pad in range(0, len(u) + 1):
+                body = "p" * pad + u * n
+                out.append(("commit 1111111111111111111111111111111111111111\n" + body + "\n").encode())
+                if pad % 5 == 0:
+                    out.append((head + " " + body + "\n+" + body + "\n").encode())
+                    out.append((head + ESC + "[1;35m-" + ESC + "[m" + body + "\n").encode())
+    return out
+
+
 def run_task(task):
     label, opts, caller, pty, inputs, deadline = task
     plain = opts.get("_plain")
@@ -212,7 +237,7 @@ def run_task(task):
 
 ASSUMPTIONS = [
     "inputs' own escape sequences are balanced (generated and verified with the same terminal model)",
-    "families A-D as described in the module docstring, G: quoted / JSON-escaped control characters in file names, F: log lines carrying their own OSC 8 links with commit hashes "
+    "families A-D as described in the module docstring, G: quoted / JSON-escaped control characters in file names, H: lines far longer in bytes than in columns (0.5-40 kB, every padding in front), F: log lines carrying their own OSC 8 links with commit hashes "
     "under --hyperlinks, E: hunk lines containing characters whose case mappings "
     "change their byte length; values outside them are not covered",
     "renders that crash are C03's business and are skipped here",
@@ -288,6 +313,16 @@ def main(tier):
         for caller in sorted(set(map(lambda c: tuple(c[0]) if c[0] else None, fg)), key=str):
             tasks.append(("G:%s,%s" % ("grep" if caller else "diff", ",".join(sorted(o))), o, list(caller) if caller else None, None,
                           [d for c, d in fg if (tuple(c) if c else None) == caller]))
+    # H: dense lines
+    for mll in (None, "100", "20"):
+        fh = family_h(int(mll or 3000))
+        for label, o in (("", {}), (",links", {"hyperlinks": True}), (",sbs", {"side-by-side": True, "width": "40"})):
+            if tier == "quick" and label == ",sbs" and mll is None:
+                continue
+            o = dict(o)
+            if mll:
+                o["max-line-length"] = mll
+            tasks.append(("H:max-line-length=%s%s" % (mll or "default", label), o, None, None, fh))
     # D: blame / grep
     for name, caller, data in family_d():
         for o in ({}, {"hyperlinks": True}, {"hyperlinks": True, "navigate": True, "width": "20"},
@@ -296,8 +331,9 @@ def main(tier):
             tasks.append(("D:%s,%s,pty" % (name, ",".join(sorted(o))), dict(o, width=None), caller, (24, 50), [data]))
     split = []
     for label, o, caller, pty, inputs in tasks:
-        for i in range(0, len(inputs), 1500):
-            split.append((label, o, caller, pty, inputs[i:i + 1500], deadline))
+        step = 100 if label.startswith("H:") else 1500
+        for i in range(0, len(inputs), step):
+            split.append((label, o, caller, pty, inputs[i:i + step], deadline))
     res = explore.pmap(run_task, split)
     n = sum(r["n"] for r in res)
     rows = sum(r.get("rows", 0) for r in res)
